@@ -7,6 +7,19 @@ raises) and judged against a reference acceptor written from the property
 statement and RFC 4880 section 7 (gverif/c04ref.py; it knows nothing about
 gemato's state machine).
 
+Part T (two-message family): every document FIRST SEP TAIL where FIRST is a
+complete well-formed signed block whose body is nothing / a blank / a
+whitespace-only line / one entry / one dash-escaped entry, SEP is nothing or a
+blank line, and TAIL is any line sequence starting with a non-blank line (<= 3
+lines over all 14 classes with / without final newline, 4..5 lines over the 7
+core classes; thorough: <= 4 and 5..6, also FIRST with armor header and
+signature text, SEP whitespace-only) - i.e. a second complete signed message,
+a partial one, stray armor, entries, junk and all their mixes after a complete
+first message, including a first message that signs no entries.  Same three load
+modes and same reference acceptor as Part A: a Manifest holds at most one signed
+block; whatever non-blank follows its END line is unsigned data / misplaced
+armor, and only that block may be handed to verification.
+
 Part B: genuinely gpg-signed Manifests, every single textual mutation from a
 fixed menu, ``load(verify_openpgp=True)`` with the real isolated gpg environment;
 whenever load succeeds, ``gpg --decrypt`` of the same text in the same GNUPGHOME
@@ -42,6 +55,19 @@ RULE = ('Part A: plain product enumeration of ALL line sequences of length <= L 
         'distinct by construction), each loaded with verify_openpgp off / on+env accepts / on+env raises; '
         'a document is a state, a line fetched by load is a transition; non-trivial = the document contains at '
         'least one armor-like or dash-escaped line and the reference verdict is definite. '
+        'Part T (two-message family): plain product enumeration of ALL documents FIRST SEP TAIL with FIRST = a '
+        'complete well-formed signed block SB hdr blank body GB sig GE, body in {nothing, blank, whitespace-only, '
+        'valid entry, dash-escaped valid entry}, (hdr, sig) = (none, none) (thorough: also (armor-header text, '
+        'base64 text)); SEP in {nothing, blank} (thorough: + whitespace-only); TAIL = nothing (the first block on '
+        'its own, with / without final newline) or a line sequence whose first line is non-blank: every such '
+        'sequence of <= F lines over all 14 classes with and without final newline, and every such sequence of '
+        'F+1..C lines over the 7 core classes {SB, GB, GE, blank, hdr/b64, entry, dash-escaped entry} with final '
+        'newline; (F, C) = (3, 5) quick, (4, 6) thorough - so every complete second signed message with <= C-4 '
+        'header/body/signature lines, every partial one, stray armor lines, entries, junk and their mixes after a '
+        'complete first message are covered; TAIL starts non-blank because blanks after the block are the SEP '
+        'dimension, which makes every document of the family distinct by construction (those of <= L lines also '
+        'occur in Part A and are subtracted from the distinct-document count); loaded in the same three modes and '
+        'judged by the same reference acceptor as Part A; all are non-trivial (they contain armor). '
         'Part B: 5 gpg-clearsigned Manifests x every single mutation of a fixed menu (insert each of the 14 line '
         'classes at each position, delete/duplicate each line, move each line to each position (quick: first '
         'base only), CRLF / bare CR per line, add/remove dash-escape per line, trailing whitespace per line, '
@@ -57,6 +83,13 @@ ASSUMPTIONS = [
     'when the readings disagree on accept/reject',
     'small scope: <= 5 (quick) / 6 (thorough) lines, one concrete representative per line class (rotated by '
     'VERIF_SEED), LF line ends in Part A; CR/CRLF only in Part B',
+    'Part T bound: one complete first block (2 forms) followed by <= 6 further lines; first blocks with more '
+    'than one body line, more than one header / signature line, or a malformed first block followed by a long '
+    'tail are only covered as far as Part A (<= L lines) reaches; tails of more than F lines use the 7 core '
+    'classes only (no whitespace-suffixed armor, other armor, whitespace-only, dash-escaped armor, junk lines)',
+    'a document that is invalid only because of content outside an in-itself well-formed signed block may have '
+    'exactly that block (BEGIN line through END line) handed to verification before it is rejected - the '
+    'statement fixes WHAT is handed over, not WHEN; nothing else may ever be handed over',
     'Part B trusts GnuPG 2.2 (--decrypt output = the cleartext it authenticated) and a single RSA test key in '
     'an isolated GNUPGHOME; loads go through io.StringIO (no universal-newline translation as with real files)',
     'Part A openpgp_env is a recording stub: it shows WHAT is handed to verification, not whether gpg agrees '
